@@ -56,21 +56,29 @@ def plan(ctx):
     if ctx.quick:
         pick = sorted(rng.choice(len(ses), size=420, replace=False).tolist())
         ses = [ses[i] for i in pick]
-    # random longer histories over all option combinations
-    mc2 = "---- MODULE MC_BandApi ----\nEXTENDS BandApi\nMCCfgs == AllCfgs\n====\n"
-    cfg2 = "INIT Init\nNEXT Next\nCONSTANTS\n Cfgs <- MCCfgs\n Depth = 5\n Starts = {TRUE, FALSE}\nCHECK_DEADLOCK FALSE\n" + INVS
-    res2 = ctx.tlc("MC_BandApi", cfg_text=cfg2, extra_files={"MC_BandApi.tla": mc2}, requirement=True, workers=2,
-                   simulate=dict(num=150 if ctx.quick else 1500), depth=6, seed=ctx.seed + 11, extra_args=("-nowarning",),
-                   what="the band-structure object machine does not answer from the last successful run (random histories)")
-    ses2 = sessions(res2.stdout)
-    if len(ses2) < (100 if ctx.quick else 1000):
-        raise tlcmod.MachineryError("x07: BandApi simulation emitted only %d histories" % len(ses2))
+    # every getter after a run of a random slice of ALL option combinations (depth 2, exhaustive over the slice)
+    nsub = 40 if ctx.quick else 160
+    allcfgs = [dict(segs=sg, ev=ev, gv=gv, bc=bc, legacy=lg, lab=lab, conn=cn) for sg in "ABCD" for ev in (False, True) for gv in (False, True)
+               for bc in (False, True) for lg in (False, True) for lab in ("none", "ok", "more", "less") for cn in ("none", "given")]
+    pick = sorted(rng.choice(len(allcfgs), size=nsub, replace=False).tolist())
+    mc2 = "---- MODULE MC_BandApi ----\nEXTENDS BandApi\nMCCfgs == %s\n====\n" % ("{" + ", ".join(tla_values.to_tla(allcfgs[i]) for i in pick) + "}")
+    cfg2 = "INIT Init\nNEXT Next\nCONSTANTS\n Cfgs <- MCCfgs\n Depth = 2\n Starts = {TRUE}\nCHECK_DEADLOCK FALSE\n" + INVS
+    res2 = ctx.tlc("MC_BandApi", cfg_text=cfg2, extra_files={"MC_BandApi.tla": mc2}, requirement=True, workers=2, extra_args=("-nowarning",),
+                   what="the band-structure object machine does not answer from the last successful run (all option combinations)")
+    ses2 = [s for s in sessions(res2.stdout) if s["hist"][0]["op"] == "run" and s["hist"][1]["op"] != "setfc"]
+    ses2.sort(key=lambda s: json.dumps(s, sort_keys=True))
+    want2 = 300 if ctx.quick else 3000
+    if len(ses2) > want2:
+        pick2 = sorted(rng.choice(len(ses2), size=want2, replace=False).tolist())
+        ses2 = [ses2[i] for i in pick2]
+    if len(ses2) < 200:
+        raise tlcmod.MachineryError("x07: BandApi (all configurations) emitted only %d histories" % len(ses2))
     cases = []
     worlds = ["cscl", "tric", "naclF"]
     for k, s in enumerate(ses + ses2):
         cases.append(dict(id=k + 1, world=worlds[(k + ctx.seed) % 3], start=s["start"], hist=s["hist"], expect=s["expect"],
                           exhaustive=k < len(ses)))
-    ctx.extra["api_histories"] = dict(depth3_over_8_configurations=len(ses), random_depth5_over_all_configurations=len(ses2))
+    ctx.extra["api_histories"] = dict(depth3_over_8_configurations=len(ses), run_then_call_over_slice_of_all_configurations=len(ses2))
     return cases, []
 
 
